@@ -312,8 +312,10 @@ class PymbolicToASTMapper(CachedMapper):
 
         if isinstance(expr, bool):
             return ast.NameConstant(expr)
-        elif isinstance(expr, (int, float)) and expr < 0:
+        elif isinstance(expr, (int, float)) and (
+                expr < 0 or (expr == 0 and str(expr).startswith("-"))):
             # ast.unparse does not parenthesize negative constants: -1**x
+            # (-0.0 is not < 0, but prints with a sign all the same)
             return ast.UnaryOp(ast.USub(), ast.Constant(-expr, None))
         else:
             return ast.Constant(expr, None)
